@@ -60,3 +60,25 @@ Theorem C09_monitor_holds_of_model :
   forall c, pc_entry c = 0 -> spcase_agree c = true -> c09_spec c = true.
 Proof. exact c09_monitor. Qed.
 Print Assumptions C09_monitor_holds_of_model.
+
+(* ---- the IdP side: authentication requests and SP metadata (models of the IDP group) ---- *)
+From Saml Require Import IdPModel IdPModelProofs.
+
+(* IdpAuthnRequest.Validate on any framed request (undecodable, rootless, without Issuer, ...)
+   and any registry behaviour is a routing or an error *)
+Theorem C09_no_panic_authn_request :
+  forall cfg reg now f, validate_framed cfg reg now f <> Panic.
+Proof. exact validate_never_panics. Qed.
+Print Assumptions C09_no_panic_authn_request.
+
+(* building and writing the response for any routed request, session and SP metadata
+   (key descriptors without certificate, unusable certificates, ...) *)
+Theorem C09_no_panic_idp_response :
+  forall cfg cp rt rq s now tnow addr relay rnd, respond cfg cp rt rq s now tnow addr relay rnd <> Panic.
+Proof. exact respond_not_panic. Qed.
+Print Assumptions C09_no_panic_idp_response.
+
+Theorem C09_no_panic_encryption_decision :
+  forall cp l, enc_decision cp l <> EncPanic.
+Proof. exact enc_decision_never_panics. Qed.
+Print Assumptions C09_no_panic_encryption_decision.
